@@ -429,7 +429,8 @@ static const char *rr_diff(const ares_dns_rr_t *a, const ares_dns_rr_t *b, unsig
   if (ares_dns_rr_get_class(a) != ares_dns_rr_get_class(b)) {
     return "rr.class";
   }
-  ttl = ttldec > ttl ? 0 : ttl - ttldec;
+  /* the public getter already accounts for the record's ttl_decrement (the writer writes what it returns) */
+  (void)ttldec;
   if (ttl != ares_dns_rr_get_ttl(b)) {
     return "rr.ttl";
   }
